@@ -299,7 +299,8 @@ def hand_tables(ctx, rep):
     spec = ctx.spec
     for tyname, sid in (("SmallType", "SMALL"), ("CimMode", "CIM")):
         sp = {nkey(k): v for k, v in spec.enums[sid].items()}
-        # reader: match discrim { LIT => Self::Variant ... }
+        from props.handpairs import disc_tables
+        rd, wr, _e = disc_tables(ctx, tyname)
         for side, trait, fn in (("read", "BinRead", "read_options"), ("write", "BinWrite", "write_options")):
             ms = ctx.ast.method(tyname, fn, trait=trait)
             if len(ms) != 1:
@@ -307,21 +308,7 @@ def hand_tables(ctx, rep):
                 continue
             ent, it = ms[0]
             rep.fn("<%s as %s>::%s" % (tyname, trait, fn))
-            matches = find_nodes(it["body"], lambda n: n.get("k") == "Match")
-            table = {}
-            for m in matches:
-                for arm in m["arms"]:
-                    p, b = arm["pat"], arm["body"]
-                    if side == "read" and p["k"] == "Lit" and p["t"] == "int":
-                        var = variant_of(b)
-                        if var:
-                            table[var] = int(p["v"])
-                    if side == "write":
-                        var = None
-                        if p["k"] in ("Path", "TupleStruct", "Struct"):
-                            var = p["path"].split("::")[-1]
-                        if var and b["k"] == "Tuple" and b["elems"] and b["elems"][0]["k"] == "Lit":
-                            table[var] = int(b["elems"][0]["v"])
+            table = {v: k for k, v in rd.items()} if side == "read" else dict(wr)
             for var, val in sorted(table.items()):
                 k = nkey(var)
                 rep.check("R2.9", "%s:%s:%s" % (tyname, side, var), k in sp and sp[k] == val,
